@@ -27,8 +27,10 @@ import Model.Util
     A7  errors of one batch enter the error queue in worker order.
 
   `fixed = false` is the code before fixes/C13-close-after-worker-death.diff, `fixed = true` the
-  repaired code (waits reset `_state` when a pipe is dead; `close_extras` never propagates a pipe
-  or worker error and always terminates + joins).
+  repaired code: every `*_wait` sets `_state = DEFAULT` as soon as its timeout check has passed (so
+  no failure while receiving can leave a pending state behind), and `close_extras` treats a dead
+  pipe (EOFError / OSError) as "terminate everybody", logs any other error of the pending call, and
+  always closes the pipes and joins the processes.
 -/
 namespace VecProto
 
